@@ -37,6 +37,8 @@ def confs():
         'P': dict(is_pep484_tower=True),
         'S': dict(strategy=BeartypeStrategy.On),
         'W': dict(warning_cls_on_decorator_exception=MyWarn),
+        # an explicit None is a choice too ("raise decoration errors"), not the same as leaving the option out
+        'N': dict(warning_cls_on_decorator_exception=None),
     }
 
 
